@@ -150,10 +150,12 @@ func c02Scenario(c c02Cfg) *mc.Scenario {
 				}
 			}))
 		}
-		for i, k := range c.other {
-			i, k := i, k
+		if len(c.other) > 0 {
+			// one more client writing its own keys one after the other (pure allocation races)
 			ths = append(ths, vrt.Go(func() {
-				w.do(&clientOp{Key: k, Kind: rCreate, Val: fmt.Sprintf("o%d", i)})
+				for i, k := range c.other {
+					w.do(&clientOp{Key: k, Kind: rCreate, Val: fmt.Sprintf("o%d", i)})
+				}
 			}))
 		}
 		if c.reader != "" {
@@ -262,7 +264,10 @@ func init() {
 				if len(cfg.other) > 0 {
 					p.Class = cfg.w.engine + "/distinct-keys"
 				}
-				n := len(cfg.w.threads) + len(cfg.other)
+				n := len(cfg.w.threads)
+				if len(cfg.other) > 0 {
+					n++
+				}
 				if cfg.reader != "" {
 					n++
 				}
@@ -273,8 +278,10 @@ func init() {
 					if n <= 2 && cfg.w.engine == hx.Mem {
 						p.Bounds = []int{0, 1, 2, 3}
 					}
-				} else if n <= 2 && cfg.w.engine == hx.Mem {
+				} else if (n <= 2 || len(cfg.other) > 0) && cfg.w.engine == hx.Mem {
+					// allocation races need two preemptions (allocator read, other allocation, allocator write)
 					p.Bounds = []int{0, 1, 2}
+					p.Shard = true
 				}
 				return p
 			})
